@@ -15,3 +15,4 @@ import KdVerif.Props.C18
 import KdVerif.Props.C02
 import KdVerif.Props.C03
 import KdVerif.Props.C06
+import KdVerif.Props.C20
